@@ -201,3 +201,33 @@ Fixpoint no_mutable_alias (o : obj) : bool :=
 Definition retrievable (entry : path * oref * option oref) : bool :=
   let '(p, r, got) := entry in
   path_eqb p [KNone] || option_eqb oref_eqb got (Some r).
+
+(* ---- guards of the two recorded findings (hypotheses of the _partial theorems) ---- *)
+(* C08-tuple-cycle: a tuple/frozenset is reached again from inside itself *)
+Fixpoint imm_backref (anc : list nat) (o : obj) : bool :=
+  match o with
+  | ORef id _ => existsb (Nat.eqb id) anc
+  | ONode id k items =>
+      existsb (Nat.eqb id) anc
+      || existsb (fun kv => imm_backref (if mutable k then anc else id :: anc) (snd kv)) items
+  | _ => false
+  end.
+
+(* C08-set-path: the reported path goes through a member of a set/frozenset *)
+Fixpoint crosses_set (defs : table obj) (cur : obj) (p : path) : bool :=
+  match p with
+  | [] => false
+  | seg :: rest =>
+      match resolve defs cur with
+      | ONode _ k items =>
+          if is_set k then true
+          else match k, seg with
+               | KList, KI i | KTuple, KI i =>
+                   match nth_error items i with Some (_, c) => crosses_set defs c rest | None => false end
+               | KDict, _ => match kd_get items seg with Some c => crosses_set defs c rest | None => false end
+               | _, _ => false
+               end
+      | _ => false
+      end
+  end.
+
